@@ -215,6 +215,34 @@ func Run(seed int64, tier, out string) {
 				}
 			}
 		}
+		// the same state object modified in place between Sign and Verify (and between Verify and
+		// Sign): a signature is over the state's content at the time of the call
+		if x := a.Clone(); oka {
+			sigx, err := channel.Sign(acc0, x, 0)
+			y := x.Clone()
+			if applied := m.f(g, x); err == nil && applied {
+				ex, okx, _ := encode(x)
+				ey, oky, _ := encode(y)
+				if okx && oky {
+					same := bytes.Equal(ex, ey)
+					v, _ := channel.Verify(acc0.Address(), x, sigx)
+					res.Count("sig-inplace/"+m.name, fmt.Sprintf("same=%v,verifies=%v", same, v), fmt.Sprintf("sig-inplace/%s/%v/%v", m.name, same, v), false)
+					if v != same {
+						res.Fail(hx.Failure{Site: "channel.Verify", InputClass: "inplace/" + m.name, Case: idx,
+							What:   fmt.Sprintf("a state signed, then modified in place (%s): the old signature verifies=%v, encodings equal=%v", m.name, v, same),
+							Replay: map[string]string{"signed": cv.State(y), "modified": cv.State(x)}})
+					}
+					sig2, err2 := channel.Sign(acc0, x, 0)
+					if err2 == nil {
+						if v2, _ := channel.Verify(acc0.Address(), x.Clone(), sig2); !v2 {
+							res.Fail(hx.Failure{Site: "channel.Sign", InputClass: "inplace/" + m.name, Case: idx,
+								What:   "a state verified, modified in place and then signed: the new signature does not verify for an equal clone",
+								Replay: map[string]string{"before": cv.State(y), "signed": cv.State(x)}})
+						}
+					}
+				}
+			}
+		}
 		// --- allocation level
 		aeq := a.Allocation.Equal(&b.Allocation) == nil
 		eaa, okaa, _ := encode(a.Allocation)
